@@ -138,6 +138,15 @@ Fixpoint fields (s : bytes) : list bytes :=
          end
   end.
 
+(* strings.TrimSpace on ASCII: leading and trailing \t \n \v \f \r and space *)
+Fixpoint drop_fspace (s : bytes) : bytes :=
+  match s with
+  | [] => []
+  | c :: r => if is_fspace c then drop_fspace r else s
+  end.
+
+Definition trim_space (s : bytes) : bytes := rev (drop_fspace (rev (drop_fspace s))).
+
 (* ------------------------------------------------------------------ *)
 (* bufio.Scanner with ScanLines.                                       *)
 
@@ -183,7 +192,7 @@ Definition scan_lines (s : bytes) : list bytes * bool := scan_raw (raw_lines s).
 
 Inductive rint :=
 | RInt (v : Z) (rest : bytes)   (* value, nil error; rest = current byte (a blank) :: unread *)
-| REof                          (* err == io.EOF (the value, if any, is dropped by the caller) *)
+| REof                          (* err == io.EOF, before any digit *)
 | RErr.
 
 (* parser.go:85-87  for err == nil && isSpace( *b ) { *b, err = r.ReadByte() } *)
@@ -200,8 +209,11 @@ Fixpoint skip_spaces (s : bytes) : bytes :=
        *b, err = r.ReadByte()
        if isSpace( *b ) { break }
      }
-     res *= neg; return res, err
-   When ReadByte hits EOF the function returns (res, io.EOF): [REof]. *)
+     res *= neg
+     if err == io.EOF { *b = ' '; err = nil }   -- EOF is reported by the NEXT call
+     return res, err
+   When ReadByte hits EOF after a digit the value is returned with a nil error
+   and the current byte becomes a blank: [RInt v [SP]]. *)
 Fixpoint read_int_digits (neg : Z) (res : Z) (s : bytes) : rint :=
   match s with
   | [] => REof                                   (* never called with [] *)
@@ -211,7 +223,7 @@ Fixpoint read_int_digits (neg : Z) (res : Z) (s : bytes) : rint :=
     | Some d =>
       let res' := 10 * res + d in
       match r with
-      | [] => REof
+      | [] => RInt (res' * neg) [SP]      (* :113-116: EOF after a digit: *b = ' ', err = nil *)
       | b' :: _ => if is_space b' then RInt (res' * neg) r
                    else read_int_digits neg res' r
       end
@@ -254,7 +266,7 @@ Fixpoint read_clause (fuel : nat) (nbvars : Z) (s : bytes) (lits : clause) : cre
   end.
 
 (* bufio.Reader.ReadString('\n'): the line with its \n, and the rest;
-   None when EOF comes first (parser.go:117-120 turns it into an error). *)
+   None when EOF comes first. *)
 Fixpoint read_line (s : bytes) : option (bytes * bytes) :=
   match s with
   | [] => None
@@ -268,7 +280,12 @@ Fixpoint read_line (s : bytes) : option (bytes * bytes) :=
 
 (* parser.go:116-134  parseHeader; the 'p' has been consumed by the caller *)
 Definition parse_header (s : bytes) : pres (Z * Z * bytes) :=
-  match read_line s with
+  (* :117-120  err != nil && (err != io.EOF || line == ""): the header may be
+     the last line of the file, without its \n, if it is not empty *)
+  match (match read_line s with
+         | Some lr => Some lr
+         | None => match s with [] => None | _ => Some (s, []) end
+         end) with
   | None => PErr
   | Some (line, rest) =>
     match fields line with
@@ -323,8 +340,10 @@ Fixpoint cnf_top (fuel : nat) (s : bytes) (nbvars : Z) (cls : cnf) : pres (Z * c
     end
   end.
 
+(* fuel |text| + 2: always enough (Proofs/Text.v); |text| + 1 is enough for
+   every rendered text (C13_dimacs_fuel) *)
 Definition parse_dimacs_r (s : bytes) : pres (Z * cnf) :=
-  cnf_top (S (List.length s)) s 0 [].
+  cnf_top (S (S (List.length s))) s 0 [].
 
 (* ------------------------------------------------------------------ *)
 (* explain.ParseCNF (explain/parser.go).                               *)
@@ -443,6 +462,9 @@ Definition wcnf_line (line : bytes) (st : wstate) : pres wstate :=
   match line with
   | [] => POk st                                                    (* :61-63 *)
   | c0 :: _ =>
+    match trim_space line with
+    | [] => POk st                            (* :61-63 strings.TrimSpace(line) == "" *)
+    | _ =>
     if Ascii.eqb c0 "p"%char then                                   (* :64-86 *)
       match fields line with
       | _ :: f1 :: f2 :: f3 :: rest =>
@@ -482,6 +504,7 @@ Definition wcnf_line (line : bytes) (st : wstate) : pres wstate :=
       | PPanic => PPanic
       | PFuel => PFuel
       end
+    end
   end.
 
 Fixpoint wcnf_lines (ls : list bytes) (st : wstate) : pres wstate :=
@@ -621,7 +644,8 @@ Definition opb_line (line : bytes) (st : ostate) : pres ostate :=
 Fixpoint opb_lines (ls : list bytes) (st : ostate) : pres ostate :=
   match ls with
   | [] => POk st
-  | l :: r =>
+  | l0 :: r =>
+    let l := trim_space l0 in                          (* :255 strings.TrimSpace(scanner.Text()) *)
     match l with
     | [] => opb_lines r st                                            (* line == "" *)
     | c0 :: _ =>
